@@ -8,6 +8,7 @@ ROOT = os.path.dirname(os.path.dirname(os.path.abspath(__file__)))
 REPO = os.environ.get('NUMQI_REPO', '/repo')
 TESTS = ['tests/test_gate.py', 'tests/tests_sim/test_sim_clifford.py']
 KEXPR = 'Pauli or pauli or Clifford or clifford'
+GROUP_TESTS = ['tests/tests_group/test_group_spf2.py', 'tests/tests_group/test_group_symmetric.py', 'tests/tests_group/test_group_basic.py']
 _cache = {}
 
 
@@ -17,7 +18,7 @@ def record(tests=TESTS, kexpr=KEXPR, timeout=900):
         return _cache[key]
     out = os.path.join(tlc.scratch(), 'repo-tests-%d.json' % len(_cache))
     env = dict(os.environ, NUMQI_VERIF_TRACE=out, PYTHONPATH=ROOT + os.pathsep + os.environ.get('PYTHONPATH', ''))
-    cmd = [sys.executable, '-m', 'pytest', '-q', '-p', 'no:cacheprovider', '-p', 'harness.recorder', '-k', kexpr] + list(tests)
+    cmd = [sys.executable, '-m', 'pytest', '-q', '-p', 'no:cacheprovider', '-p', 'harness.recorder'] + (['-k', kexpr] if kexpr else []) + list(tests)
     p = subprocess.run(cmd, cwd=REPO, env=env, stdout=subprocess.PIPE, stderr=subprocess.STDOUT, text=True, timeout=timeout)
     if not os.path.exists(out):
         raise RuntimeError('recorder produced no trace file:\n' + p.stdout[-2000:])
